@@ -1,5 +1,5 @@
 /-
-Lemmas/ByteLayout.lean — the tokenizer of Spec/ByteLayout.lean inverts the reference encoder.
+Lemmas/ByteLayout.lean — the tokenizer of Spec/ByteLayout.lean inverts the reference encoder, also on truncated input.
 -/
 import KafkaVerif.Spec.ByteLayout
 import KafkaVerif.Lemmas.RecordBatchSpec
@@ -7,55 +7,562 @@ import KafkaVerif.Lemmas.RecordBatchSpec
 namespace KV.C02
 open KV KV.RW KV.Spec.RB
 
-theorem tokenizeFrame_enc (crc : Bytes → Nat) (hcrc : ∀ b, crc b < M32) (dg : FrameV2 → RecV2 → Nat) (b : BBatch)
-    (hwf : b.frame.WF) (r : Bytes) :
-    tokenizeFrame crc dg (encFrame crc b.frame ++ r) = some (tokensOf (b.item dg), r) := by
-  have hdec : decodeRecs b.frame.count b.frame.payload = some b.recs := by
-    simpa [BBatch.frame] using decodeRecs_encRecs b.recs
-  have hcodec : codecOf b.frame.attributes = 0 := by simp [BBatch.frame, codecOf]
-  simp only [tokenizeFrame, readFrame_encFrame crc hcrc b.frame hwf r, hcodec, ne_eq, not_true_eq_false, if_false, hdec]
-  simp only [BBatch.item, tokensOf, Bool.false_eq_true, if_false, List.length_map, List.map_map, BBatch.frame,
-    Option.some.injEq, Prod.mk.injEq, and_true, List.cons.injEq]
-  refine ⟨?_, ?_⟩
-  · congr 1; omega
-  · apply List.map_congr_left; intro a _; rfl
+/-! ### primitives on prefixes -/
 
-theorem encFrame_ne_nil (crc : Bytes → Nat) (f : FrameV2) : encFrame crc f ≠ [] := by
-  intro h
-  have := congrArg List.length h
-  simp [encFrame, i64, beN_length] at this
+theorem take_append_ge {α : Type} (a b : List α) (n : Nat) (h : a.length ≤ n) :
+    (a ++ b).take n = a ++ b.take (n - a.length) := by
+  rw [List.take_append]
+  simp [List.take_of_length_le h]
 
-theorem tokenizeSet_succ (crc : Bytes → Nat) (dg : FrameV2 → RecV2 → Nat) (fuel : Nat) (bs : Bytes) (h : bs ≠ []) :
-    tokenizeSet crc dg (fuel + 1) bs =
-      (match tokenizeFrame crc dg bs with
-       | none => none
-       | some (ts, rest) =>
-         match tokenizeSet crc dg fuel rest with
-         | none => none
-         | some ts' => some (ts ++ ts')) := by
-  cases bs with
-  | nil => exact absurd rfl h
-  | cons x xs => rfl
+theorem take_append_lt {α : Type} (a b : List α) (n : Nat) (h : n ≤ a.length) :
+    (a ++ b).take n = a.take n := by
+  rw [List.take_append]
+  have : n - a.length = 0 := by omega
+  simp [this]
 
-/-- **bytes ↔ tokens**: tokenizing the reference encoding of a list of uncompressed v2 batches gives exactly the token
-stream of their layout -/
-theorem tokenizeSet_enc (crc : Bytes → Nat) (hcrc : ∀ b, crc b < M32) (dg : FrameV2 → RecV2 → Nat) :
-    ∀ (bs : List BBatch), (∀ b ∈ bs, b.frame.WF) → ∀ fuel, bs.length ≤ fuel →
-      tokenizeSet crc dg fuel (encSetV2 crc bs) = some (allTokens (layoutOf dg bs)) := by
-  intro bs
-  induction bs with
-  | nil => intro _ fuel _; cases fuel <;> simp [encSetV2, tokenizeSet, layoutOf, allTokens]
-  | cons b bs ih =>
-    intro hwf fuel hf
+/-- a strict prefix of a LEB128 number is not a number (every byte but the last has the continuation bit) -/
+theorem readUvarint_prefix (n : Nat) : ∀ k, k < (uvarint n).length → readUvarint ((uvarint n).take k) = none := by
+  induction n using uvarint.induct with
+  | case1 n h =>
+    intro k hk
+    rw [uvarint] at hk ⊢
+    simp only [h, if_true, List.length_singleton] at hk ⊢
+    have : k = 0 := by omega
+    subst this
+    simp [readUvarint]
+  | case2 n h ih =>
+    intro k hk
+    rw [uvarint] at hk ⊢
+    simp only [h, if_false, List.length_cons] at hk ⊢
+    cases k with
+    | zero => simp [readUvarint]
+    | succ k =>
+      simp only [List.take_succ_cons, readUvarint, byte_toNat]
+      have : ¬ (n % 128 + 128) % 256 < 128 := by omega
+      simp only [this, if_false]
+      rw [ih k (by omega)]
+
+theorem encRec_length_pos (r : RecV2) : 0 < (encRec r).length := by
+  simp only [encRec, List.length_append, varint_length]
+  have := uvarintLen_pos (zigzag ((recBody r).length : Int))
+  simp only [varintLen]; omega
+
+/-- a record whose bytes are not all there cannot be read -/
+theorem readRec_prefix (r : RecV2) (x : Bytes) (n : Nat) (h : n < (encRec r).length) :
+    readRec ((encRec r ++ x).take n) = none := by
+  simp only [encRec, List.append_assoc] at h ⊢
+  by_cases hv : n < (varint ((recBody r).length : Int)).length
+  · rw [take_append_lt _ _ _ (by omega)]
+    simp only [readRec, readVarint, varint]
+    rw [readUvarint_prefix _ _ (by simpa [varint] using hv)]
+  · rw [take_append_ge _ _ _ (by omega)]
+    simp only [readRec, readVarint_varint]
+    have h2 : ¬ (((recBody r).length : Int) < 0) := by omega
+    simp only [h2, if_false, Int.toNat_natCast]
+    have hlen : ((recBody r ++ x).take (n - (varint ((recBody r).length : Int)).length)).length < (recBody r).length := by
+      simp only [List.length_take, List.length_append] at h ⊢
+      omega
+    unfold takeN
+    rw [if_neg (Nat.not_le.mpr hlen)]
+
+theorem readRec_take (r : RecV2) (x : Bytes) (n : Nat) (h : (encRec r).length ≤ n) :
+    readRec ((encRec r ++ x).take n) = some (r, x.take (n - (encRec r).length)) := by
+  rw [take_append_ge _ _ _ h, readRec_encRec]
+
+/-! ### the v2 header -/
+
+theorem encFrame_split (crc : Bytes → Nat) (f : FrameV2) :
+    encFrame crc f = encH2 (crc (frameBody f)) f ++ f.payload := by
+  simp [encFrame, encH2, frameBody, List.append_assoc]
+
+theorem encH2_length (c : Nat) (f : FrameV2) : (encH2 c f).length = 61 := by
+  simp [encH2, u32]
+
+theorem readH2_encH2 (c : Nat) (hc : c < M32) (f : FrameV2) (h : f.WF) (x : Bytes) :
+    readH2 (encH2 c f ++ x) = some (⟨f.baseOffset, f.lastOffsetDelta, f.firstTs, f.count, f.attributes, f.payload.length⟩, x) := by
+  obtain ⟨h1, h2, h3, h4, h5, h6, h7, h8, h9, h10, h11⟩ := h
+  have hlen : InRange M32 (9 + ((frameBody f).length : Int)) := by
+    rw [frameBody_length]; unfold InRange M32 at *; omega
+  have hm : InRange M8 2 := by unfold InRange M8; omega
+  have hl : (9 + ((frameBody f).length : Int) - 49).toNat = f.payload.length := by
+    rw [frameBody_length]; omega
+  simp [encH2, readH2, List.append_assoc, Int.natCast_add, readI64_i64 _ _ h1, readI32_i32 _ _ hlen, readI32_i32 _ _ h2, readI8_i8 _ _ hm,
+    readU32_u32 _ _ hc, readI16_i16 _ _ h3, readI32_i32 _ _ h4, readI64_i64 _ _ h5, readI64_i64 _ _ h6,
+    readI64_i64 _ _ h7, readI16_i16 _ _ h8, readI32_i32 _ _ h9, readI32_i32 _ _ h10, hl]
+
+end KV.C02
+
+namespace KV.C02
+open KV KV.RW KV.Spec.RB
+
+/-! ### the magic byte -/
+
+theorem magicOf_take (l : Bytes) (n : Nat) : magicOf (l.take n) = if 16 < n then magicOf l else none := by
+  simp only [magicOf, List.getElem?_take]
+
+theorem magicOf_encH2 (c : Nat) (f : FrameV2) (x : Bytes) : magicOf (encH2 c f ++ x) = some 2 := by
+  simp only [magicOf, encH2, List.append_assoc]
+  rw [getElem?_skip _ _ _ (by simp), getElem?_skip _ _ _ (by simp), getElem?_skip _ _ _ (by simp)]
+  simp [i8_eq]
+  decide
+
+/-! ### the v0/v1 header -/
+
+theorem encMsg_split (crc : Bytes → Nat) (m : Msg) : encMsg crc m = encH1 (crc (msgBody m)) m ++ encB1 m := by
+  simp [encMsg, encH1, encB1, msgBody, List.append_assoc]
+
+theorem encH1_length (c : Nat) (m : Msg) : (encH1 c m).length = if m.magic = 0 then 18 else 26 := by
+  by_cases h : m.magic = 0 <;> simp [encH1, u32, h]
+
+theorem magicOf_encH1 (c : Nat) (m : Msg) (x : Bytes) (h : m.magic = 0 ∨ m.magic = 1) :
+    magicOf (encH1 c m ++ x) = some (if m.magic = 1 then 1 else 0) := by
+  simp only [magicOf, encH1, List.append_assoc]
+  rw [getElem?_skip _ _ _ (by simp), getElem?_skip _ _ _ (by simp), getElem?_skip _ _ _ (by simp [u32])]
+  rcases h with h | h <;> simp [i8_eq, h] <;> decide
+
+theorem encB1_length (m : Msg) (h : m.WF) : (msgBody m).length = (if m.magic = 0 then 2 else 10) + (encB1 m).length := by
+  by_cases h0 : m.magic = 0 <;> simp [msgBody, encB1, h0] <;> omega
+
+theorem readH1_encH1 (c : Nat) (hc : c < M32) (m : Msg) (h : m.WF) (x : Bytes) :
+    readH1 (encH1 c m ++ x) = some (⟨m.offset, m.magic, m.attributes, (encB1 m).length⟩, x) := by
+  have hbl := encB1_length m h
+  have hml := msgBody_length m h
+  obtain ⟨h1, hm, ha, ht, hz, hl⟩ := h
+  have hb : (msgBody m).length ≤ 18 + optLen m.key + optLen m.value := by
+    rw [hml]; split <;> split <;> split <;> omega
+  have hlen : InRange M32 (4 + ((msgBody m).length : Int)) := by unfold InRange M32 at *; omega
+  have hm0 : InRange M8 0 := by unfold InRange M8; omega
+  have hm1 : InRange M8 1 := by unfold InRange M8; omega
+  rcases hm with h0 | h1'
+  · have hsz : (4 + ((msgBody m).length : Int) - 6).toNat = (encB1 m).length := by rw [hbl]; simp [h0]; omega
+    simp [encH1, readH1, h0, List.append_assoc, Int.natCast_add, readI64_i64 _ _ h1, readI32_i32 _ _ hlen, readU32_u32 _ _ hc,
+      readI8_i8 _ _ hm0, readI8_i8 _ _ ha, hsz]
+  · have hne : ¬ m.magic = 0 := by omega
+    have hsz : (4 + ((msgBody m).length : Int) - 14).toNat = (encB1 m).length := by rw [hbl]; simp [hne]; omega
+    simp [encH1, readH1, h1', List.append_assoc, Int.natCast_add, readI64_i64 _ _ h1, readI32_i32 _ _ hlen, readU32_u32 _ _ hc,
+      readI8_i8 _ _ hm1, readI8_i8 _ _ ha, readI64_i64 _ _ ht, hsz]
+
+end KV.C02
+
+namespace KV.C02
+open KV KV.RW KV.Spec.RB
+
+/-! ### small facts about `truncate` and `tokenize` -/
+
+def r2Tok (dg2 : Int → RecV2 → Nat) (fts : Int) (r : RecV2) : Tok := .r2 r.offDelta (dg2 fts r) (encRec r).length
+
+theorem truncate_cons_fit (t : Tok) (ts : List Tok) (n : Nat) (h : t.size ≤ n) :
+    truncate (t :: ts) n = t :: truncate ts (n - t.size) := by simp [truncate, h]
+
+theorem truncate_cons_zero (t : Tok) (ts : List Tok) (h : 0 < t.size) : truncate (t :: ts) 0 = [] := by
+  have : ¬ t.size ≤ 0 := by omega
+  simp [truncate, this]
+
+theorem truncate_cons_cut (t : Tok) (ts : List Tok) (n : Nat) (h : n < t.size) (h0 : n ≠ 0) :
+    truncate (t :: ts) n = [.cut] := by
+  have : ¬ t.size ≤ n := by omega
+  simp [truncate, this, h0]
+
+theorem tokenize_nil (c : TokCfg) (fuel : Nat) (st : TS) : tokenize c fuel st [] = [] := by
+  cases fuel <;> simp [tokenize]
+
+theorem isEmpty_take_false {l : Bytes} {n : Nat} (hn : 0 < n) (hl : 0 < l.length) : (l.take n).isEmpty = false := by
+  cases l with
+  | nil => simp at hl
+  | cons x xs =>
+    cases n with
+    | zero => omega
+    | succ n => simp
+
+theorem isEmpty_append_false {a b : Bytes} (ha : 0 < a.length) : (a ++ b).isEmpty = false := by
+  cases a with
+  | nil => simp at ha
+  | cons x xs => simp
+
+/-- at the start of an item whose header `H` (with magic byte `mg`, `17 ≤ |H|`) is not completely there -/
+theorem tokenize_hdr_short (c : TokCfg) (fuel : Nat) (H x : Bytes) (n : Nat) (mg : UInt8)
+    (hmg : magicOf (H ++ x) = some mg) (hsz : H.length = if mg = 2 then 61 else if mg = 1 then 26 else 18)
+    (hn : n < H.length) (h0 : n ≠ 0) :
+    tokenize c (fuel + 1) .hdr ((H ++ x).take n) = [.cut] := by
+  have hlen : ((H ++ x).take n).length = n := by simp only [List.length_take, List.length_append]; omega
+  have hne : ((H ++ x).take n).isEmpty = false := isEmpty_take_false (by omega) (by simp only [List.length_append]; omega)
+  simp only [tokenize, hne, Bool.false_eq_true, if_false, magicOf_take, hmg]
+  by_cases h16 : 16 < n
+  · simp only [h16, if_true, hlen]
+    by_cases h2 : mg = 2
+    · simp only [h2, if_true] at hsz ⊢
+      have : n < 61 := by omega
+      simp [this]
+    · simp only [h2, if_false] at hsz ⊢
+      have : n < (if mg = 1 then 26 else 18) := by omega
+      simp [this]
+  · simp [h16]
+
+end KV.C02
+
+namespace KV.C02
+open KV KV.RW KV.Spec.RB
+
+/-! ### v2 batches -/
+
+theorem tokenize_recs (c : TokCfg) (h : H2) (Rb : Bytes) (Rt : List Tok)
+    (IH : ∀ m fuel, m < fuel → tokenize c fuel .hdr (Rb.take m) = truncate Rt m) :
+    ∀ (recs : List RecV2) (n fuel : Nat), n < fuel →
+      tokenize c fuel (if recs.length = 0 then .hdr else .recs h recs.length) ((encRecs recs ++ Rb).take n)
+        = truncate (recs.map (r2Tok c.dg2 h.firstTs) ++ Rt) n := by
+  intro recs
+  induction recs with
+  | nil => intro n fuel hf; simpa [encRecs] using IH n fuel hf
+  | cons r rs ih =>
+    intro n fuel hf
     cases fuel with
-    | zero => simp at hf
+    | zero => omega
     | succ fuel =>
-      have hne : encFrame crc b.frame ++ encSetV2 crc bs ≠ [] := by
-        intro h; exact encFrame_ne_nil crc b.frame (List.append_eq_nil_iff.mp h).1
-      have ihb := ih (fun x hx => hwf x (by simp [hx])) fuel (by simp at hf; omega)
-      simp only [encSetV2]
-      rw [tokenizeSet_succ crc dg fuel _ hne]
-      simp only [tokenizeFrame_enc crc hcrc dg b (hwf b (by simp)) (encSetV2 crc bs), ihb]
-      simp [layoutOf, allTokens]
+      have hpos := encRec_length_pos r
+      have hsz : (r2Tok c.dg2 h.firstTs r).size = (encRec r).length := rfl
+      simp only [List.length_cons, Nat.add_one_ne_zero, if_false, encRecs, List.append_assoc, List.map_cons, List.cons_append]
+      by_cases hfit : (encRec r).length ≤ n
+      · rw [truncate_cons_fit _ _ _ (by rw [hsz]; exact hfit), hsz]
+        have hread := readRec_take r (encRecs rs ++ Rb) n hfit
+        have hne : ((encRec r ++ (encRecs rs ++ Rb)).take n).isEmpty = false := by
+          rw [take_append_ge _ _ _ hfit]; exact isEmpty_append_false hpos
+        have hlen : ((encRec r ++ (encRecs rs ++ Rb)).take n).length - ((encRecs rs ++ Rb).take (n - (encRec r).length)).length
+            = (encRec r).length := by
+          rw [take_append_ge _ _ _ hfit]; simp
+        simp only [tokenize, hne, Bool.false_eq_true, if_false, hread, hlen]
+        have hst : (if rs.length + 1 ≤ 1 then TS.hdr else TS.recs h (rs.length + 1 - 1))
+            = (if rs.length = 0 then TS.hdr else TS.recs h rs.length) := by
+          by_cases h0 : rs.length = 0 <;> simp [h0]
+        rw [hst, ih (n - (encRec r).length) fuel (by omega)]
+        rfl
+      · by_cases h0 : n = 0
+        · subst h0
+          rw [truncate_cons_zero _ _ (by rw [hsz]; exact hpos)]
+          simp [tokenize]
+        · rw [truncate_cons_cut _ _ _ (by rw [hsz]; omega) h0]
+          have hne : ((encRec r ++ (encRecs rs ++ Rb)).take n).isEmpty = false :=
+            isEmpty_take_false (by omega) (by simp only [List.length_append]; omega)
+          simp only [tokenize, hne, Bool.false_eq_true, if_false, readRec_prefix r _ n (by omega)]
+
+/-- an uncompressed v2 batch followed by anything -/
+theorem tok_plain2 (c : TokCfg) (hcrc : ∀ b, c.crcs.castagnoli b < M32) (b : BBatch) (hb : b.frame.WF)
+    (Rb : Bytes) (Rt : List Tok) (IH : ∀ m fuel, m < fuel → tokenize c fuel .hdr (Rb.take m) = truncate Rt m)
+    (n fuel : Nat) (hf : n < fuel) :
+    tokenize c fuel .hdr ((encFrame c.crcs.castagnoli b.frame ++ Rb).take n) = truncate (tokensOf (b.item c.dg2) ++ Rt) n := by
+  cases fuel with
+  | zero => omega
+  | succ fuel =>
+    have htoks : tokensOf (b.item c.dg2) ++ Rt
+        = Tok.h2 b.hdr.baseOffset b.hdr.lastOffsetDelta b.recs.length false (encRecs b.recs).length ::
+          (b.recs.map (r2Tok c.dg2 b.hdr.firstTs) ++ Rt) := by
+      simp only [BBatch.item, tokensOf, Bool.false_eq_true, if_false, List.length_map, List.map_map, List.cons_append,
+        List.cons.injEq, Tok.h2.injEq, true_and, and_true]
+      refine ⟨by omega, ?_⟩
+      congr 1
+    have hbytes : encFrame c.crcs.castagnoli b.frame ++ Rb
+        = encH2 (c.crcs.castagnoli (frameBody b.frame)) b.frame ++ (encRecs b.recs ++ Rb) := by
+      simp [encFrame_split, BBatch.frame, List.append_assoc]
+    rw [htoks, hbytes]
+    have hl61 := encH2_length (c.crcs.castagnoli (frameBody b.frame)) b.frame
+    have hmg := magicOf_encH2 (c.crcs.castagnoli (frameBody b.frame)) b.frame
+    by_cases h61 : 61 ≤ n
+    · rw [truncate_cons_fit _ _ _ (by simpa [Tok.size] using h61)]
+      rw [take_append_ge _ _ _ (by omega), hl61]
+      have hne := isEmpty_append_false (b := (encRecs b.recs ++ Rb).take (n - 61)) (a := encH2 (c.crcs.castagnoli (frameBody b.frame)) b.frame) (by omega)
+      have hlen : ¬ (encH2 (c.crcs.castagnoli (frameBody b.frame)) b.frame ++ (encRecs b.recs ++ Rb).take (n - 61)).length < 61 := by
+        simp only [List.length_append, hl61]; omega
+      simp only [tokenize, hne, Bool.false_eq_true, if_false, hmg, if_true, hlen, readH2_encH2 _ (hcrc _) _ hb]
+      have hcnt : (b.frame.count).toNat = b.recs.length := by simp [BBatch.frame]
+      have hattr : (b.frame.attributes % 8 != 0) = false := by simp [BBatch.frame]
+      simp only [hcnt, hattr, Bool.false_eq_true, if_false]
+      have := tokenize_recs c ⟨b.frame.baseOffset, b.frame.lastOffsetDelta, b.frame.firstTs, b.frame.count, b.frame.attributes,
+        b.frame.payload.length⟩ Rb Rt IH b.recs (n - 61) fuel (by omega)
+      simp only [Tok.size]
+      rw [this]
+      simp [BBatch.frame]
+    · by_cases h0 : n = 0
+      · subst h0
+        rw [truncate_cons_zero _ _ (by simp [Tok.size])]
+        simp [tokenize]
+      · rw [truncate_cons_cut _ _ _ (by simp [Tok.size]; omega) h0]
+        exact tokenize_hdr_short c fuel _ _ n 2 (hmg _) (by simp [hl61]) (by omega) h0
+
+/-- a compressed v2 batch followed by anything; `dec ∘ enc = id` -/
+theorem tok_comp2 (c : TokCfg) (enc : Int → Bytes → Bytes) (hdec : ∀ k b, c.dec k (enc k b) = some b)
+    (hcrc : ∀ b, c.crcs.castagnoli b < M32) (hdr : FrameV2) (codec : Int) (recs : List RecV2)
+    (hwf : (BItem.comp2 hdr codec recs).WF c enc) (hpl : 0 < (enc codec (encRecs recs)).length)
+    (Rb : Bytes) (Rt : List Tok) (IH : ∀ m fuel, m < fuel → tokenize c fuel .hdr (Rb.take m) = truncate Rt m)
+    (n fuel : Nat) (hf : n < fuel) :
+    tokenize c fuel .hdr (((BItem.comp2 hdr codec recs).bytes c enc ++ Rb).take n)
+      = truncate (tokensOf ((BItem.comp2 hdr codec recs).item c enc) ++ Rt) n := by
+  obtain ⟨hfw, hc0, hc8, hne⟩ := hwf
+  cases fuel with
+  | zero => omega
+  | succ fuel =>
+    have hlenne : recs.length ≠ 0 := by simpa using hne
+    obtain ⟨f, hfdef⟩ : ∃ f, f = comp2Frame enc hdr codec recs := ⟨_, rfl⟩
+    obtain ⟨pl, hpldef⟩ : ∃ pl, pl = enc codec (encRecs recs) := ⟨_, rfl⟩
+    rw [← hfdef] at hfw
+    rw [← hpldef] at hpl
+    have htoks : tokensOf ((BItem.comp2 hdr codec recs).item c enc) ++ Rt
+        = Tok.h2 hdr.baseOffset hdr.lastOffsetDelta recs.length true pl.length ::
+          Tok.z2 pl.length (recs.map fun r => (r.offDelta, c.dg2 hdr.firstTs r, (encRec r).length)) :: Rt := by
+      simp only [BItem.item, tokensOf, if_true, List.length_map, List.cons_append, List.nil_append, List.cons.injEq,
+        Tok.h2.injEq, true_and, and_true, hpldef]
+      omega
+    have hbytes : (BItem.comp2 hdr codec recs).bytes c enc ++ Rb
+        = encH2 (c.crcs.castagnoli (frameBody f)) f ++ (pl ++ Rb) := by
+      simp [BItem.bytes, encFrame_split, hfdef, hpldef, comp2Frame, List.append_assoc]
+    rw [htoks, hbytes]
+    have hl61 := encH2_length (c.crcs.castagnoli (frameBody f)) f
+    have hmg := magicOf_encH2 (c.crcs.castagnoli (frameBody f)) f
+    have hcm : codec % 8 = codec := by omega
+    by_cases h61 : 61 ≤ n
+    · rw [truncate_cons_fit _ _ _ (by simpa [Tok.size] using h61)]
+      rw [take_append_ge _ _ _ (by omega), hl61]
+      have hne1 := isEmpty_append_false (b := (pl ++ Rb).take (n - 61)) (a := encH2 (c.crcs.castagnoli (frameBody f)) f) (by omega)
+      have hlen : ¬ (encH2 (c.crcs.castagnoli (frameBody f)) f ++ (pl ++ Rb).take (n - 61)).length < 61 := by
+        simp only [List.length_append, hl61]; omega
+      simp only [tokenize, hne1, Bool.false_eq_true, if_false, hmg, if_true, hlen, readH2_encH2 _ (hcrc _) _ hfw]
+      have hcnt : (f.count).toNat = recs.length := by simp [hfdef, comp2Frame]
+      have hattr : (f.attributes % 8 != 0) = true := by simp [hfdef, comp2Frame, hcm]; omega
+      simp only [hcnt, hattr, if_true, Tok.size]
+      -- the payload
+      have hfb : f.baseOffset = hdr.baseOffset ∧ f.lastOffsetDelta = hdr.lastOffsetDelta ∧ f.payload = pl ∧ f.firstTs = hdr.firstTs
+          ∧ f.attributes = codec ∧ f.count = (recs.length : Int) := by
+        simp [hfdef, hpldef, comp2Frame]
+      obtain ⟨e1, e2, e3, e4, e5, e6⟩ := hfb
+      rw [e1, e2, e3]
+      congr 1
+      by_cases hpfit : pl.length ≤ n - 61
+      · rw [truncate_cons_fit _ _ _ (by simpa [Tok.size] using hpfit)]
+        rw [take_append_ge _ _ _ hpfit]
+        cases fuel with
+        | zero => omega
+        | succ fuel =>
+          have hne2 := isEmpty_append_false (b := Rb.take (n - 61 - pl.length)) (a := pl) hpl
+          have hl2 : ¬ (pl ++ Rb.take (n - 61 - pl.length)).length < pl.length := by simp only [List.length_append]; omega
+          have htk : (pl ++ Rb.take (n - 61 - pl.length)).take pl.length = pl := by simp
+          have hdr' : (pl ++ Rb.take (n - 61 - pl.length)).drop pl.length = Rb.take (n - 61 - pl.length) := by simp
+          have hd : (c.dec (codec % 8) pl).bind (decodeRecs (recs.length : Int)) = some recs := by
+            rw [hcm, hpldef]; simp only [hdec, Option.bind_some]; exact decodeRecs_encRecs recs
+          simp only [tokenize, hne2, Bool.false_eq_true, if_false, hl2, htk, hdr', e4, e5, e6, hd, Tok.size]
+          rw [IH _ fuel (by omega)]
+      · by_cases h0 : n - 61 = 0
+        · rw [h0, truncate_cons_zero _ _ (by simpa [Tok.size] using hpl)]
+          simp [tokenize_nil]
+        · rw [truncate_cons_cut _ _ _ (by simp [Tok.size]; omega) h0]
+          cases fuel with
+          | zero => omega
+          | succ fuel =>
+            have hne2 : ((pl ++ Rb).take (n - 61)).isEmpty = false :=
+              isEmpty_take_false (by omega) (by simp only [List.length_append]; omega)
+            have hl2 : ((pl ++ Rb).take (n - 61)).length < pl.length := by
+              simp only [List.length_take, List.length_append]; omega
+            simp only [tokenize, hne2, Bool.false_eq_true, if_false, hl2, if_true]
+    · by_cases h0 : n = 0
+      · subst h0
+        rw [truncate_cons_zero _ _ (by simp [Tok.size])]
+        simp [tokenize]
+      · rw [truncate_cons_cut _ _ _ (by simp [Tok.size]; omega) h0]
+        exact tokenize_hdr_short c fuel _ _ n 2 (hmg _) (by simp [hl61]) (by omega) h0
+
+end KV.C02
+
+namespace KV.C02
+open KV KV.RW KV.Spec.RB
+
+/-! ### v0/v1 messages -/
+
+def h1Of (m : Msg) : H1 := ⟨m.offset, m.magic, m.attributes, (encB1 m).length⟩
+
+theorem encB1_pos (m : Msg) : 0 < (encB1 m).length := by
+  cases hk : m.key <;> simp [encB1, nbytes, hk] <;> omega
+
+/-- a v0/v1 message (plain or wrapper) followed by anything, given what the decoder does with its complete body -/
+theorem tok_v1 (c : TokCfg) (cv : Nat) (hcv : cv < M32) (m : Msg) (hwf : m.WF) (bt : Tok) (hbt : bt.size = (encB1 m).length)
+    (hbody : ∀ fuel x, tokenize c (fuel + 1) (.body (encH1 cv m) (h1Of m)) (encB1 m ++ x) = bt :: tokenize c fuel .hdr x)
+    (Rb : Bytes) (Rt : List Tok) (IH : ∀ k fuel, k < fuel → tokenize c fuel .hdr (Rb.take k) = truncate Rt k)
+    (n fuel : Nat) (hf : n < fuel) :
+    tokenize c fuel .hdr ((encH1 cv m ++ (encB1 m ++ Rb)).take n)
+      = truncate (Tok.h1 m.magic.toNat m.offset (m.attributes % 8 != 0) :: bt :: Rt) n := by
+  cases fuel with
+  | zero => omega
+  | succ fuel =>
+    have hmag := hwf.2.1
+    have hlH := encH1_length cv m
+    have hmg := magicOf_encH1 cv m
+    have hsz1 : (Tok.h1 m.magic.toNat m.offset (m.attributes % 8 != 0)).size = (encH1 cv m).length := by
+      rcases hmag with h | h <;> simp [Tok.size, hlH, h]
+    have hpos := encB1_pos m
+    by_cases hfit : (encH1 cv m).length ≤ n
+    · rw [truncate_cons_fit _ _ _ (by rw [hsz1]; exact hfit), hsz1]
+      rw [take_append_ge _ _ _ hfit]
+      have hne1 := isEmpty_append_false (b := (encB1 m ++ Rb).take (n - (encH1 cv m).length)) (a := encH1 cv m)
+        (by rw [hlH]; split <;> omega)
+      have hmgv : (if m.magic = 1 then (1 : UInt8) else 0) ≠ 2 := by split <;> decide
+      have hlen : ¬ (encH1 cv m ++ (encB1 m ++ Rb).take (n - (encH1 cv m).length)).length
+          < (if (if m.magic = 1 then (1 : UInt8) else 0) = 1 then 26 else 18) := by
+        simp only [List.length_append, hlH]
+        rcases hmag with h | h <;> simp [h]
+      simp only [tokenize, hne1, Bool.false_eq_true, if_false, hmg _ hmag, hmgv, hlen, readH1_encH1 cv hcv m hwf]
+      have htk : (encH1 cv m ++ (encB1 m ++ Rb).take (n - (encH1 cv m).length)).take
+          ((encH1 cv m ++ (encB1 m ++ Rb).take (n - (encH1 cv m).length)).length - ((encB1 m ++ Rb).take (n - (encH1 cv m).length)).length)
+          = encH1 cv m := by
+        simp
+      rw [htk]
+      congr 1
+      -- the body
+      by_cases hbfit : (encB1 m).length ≤ n - (encH1 cv m).length
+      · rw [truncate_cons_fit _ _ _ (by rw [hbt]; exact hbfit), hbt, take_append_ge _ _ _ hbfit]
+        cases fuel with
+        | zero => omega
+        | succ fuel =>
+          have := hbody fuel (Rb.take (n - (encH1 cv m).length - (encB1 m).length))
+          simp only [h1Of] at this
+          have h18 : 18 ≤ (encH1 cv m).length := by rw [hlH]; split <;> omega
+          rw [this, IH _ fuel (by omega)]
+      · by_cases h0 : n - (encH1 cv m).length = 0
+        · rw [h0, truncate_cons_zero _ _ (by rw [hbt]; exact hpos)]
+          simp [tokenize_nil]
+        · rw [truncate_cons_cut _ _ _ (by rw [hbt]; omega) h0]
+          cases fuel with
+          | zero => omega
+          | succ fuel =>
+            have hne2 : ((encB1 m ++ Rb).take (n - (encH1 cv m).length)).isEmpty = false :=
+              isEmpty_take_false (by omega) (by simp only [List.length_append]; omega)
+            have hl2 : ((encB1 m ++ Rb).take (n - (encH1 cv m).length)).length < (encB1 m).length := by
+              simp only [List.length_take, List.length_append]; omega
+            simp only [tokenize, hne2, Bool.false_eq_true, if_false, hl2, if_true]
+    · by_cases h0 : n = 0
+      · subst h0
+        rw [truncate_cons_zero _ _ (by rw [hsz1, hlH]; split <;> omega)]
+        simp [tokenize]
+      · rw [truncate_cons_cut _ _ _ (by rw [hsz1]; omega) h0]
+        refine tokenize_hdr_short c fuel _ _ n _ (hmg _ hmag) ?_ (by omega) h0
+        rw [hlH]
+        rcases hmag with h | h <;> simp [h]
+
+end KV.C02
+
+namespace KV.C02
+open KV KV.RW KV.Spec.RB
+
+theorem encMsgs_eq_encSet (c : Crcs) (ms : List Msg) : encMsgs c.ieee ms = encSet c (ms.map Entry.msg) := by
+  induction ms with
+  | nil => rfl
+  | cons m ms ih => simp [encMsgs, encSet, encEntry, ih]
+
+theorem msgsOf_map (ms : List Msg) : msgsOf (ms.map Entry.msg) = some ms := by
+  induction ms with
+  | nil => rfl
+  | cons m ms ih => simp [msgsOf, ih]
+
+/-- the complete body of a plain v0/v1 message -/
+theorem body_msg (c : TokCfg) (hcrc : ∀ b, c.crcs.ieee b < M32) (m : Msg) (hwf : m.WF) (hplain : m.attributes % 8 = 0)
+    (fuel : Nat) (x : Bytes) :
+    tokenize c (fuel + 1) (.body (encH1 (c.crcs.ieee (msgBody m)) m) (h1Of m)) (encB1 m ++ x)
+      = Tok.kv (c.dg1 m) (encB1 m).length :: tokenize c fuel .hdr x := by
+  have hne := isEmpty_append_false (b := x) (a := encB1 m) (encB1_pos m)
+  have hl : ¬ (encB1 m ++ x).length < (encB1 m).length := by simp only [List.length_append]; omega
+  have hread : readMsg c.crcs.ieee (encH1 (c.crcs.ieee (msgBody m)) m ++ (encB1 m ++ x).take (encB1 m).length) = some (m, []) := by
+    have := readMsg_encMsg c.crcs.ieee hcrc m hwf []
+    simpa [encMsg_split] using this
+  simp only [tokenize, hne, Bool.false_eq_true, if_false, h1Of, hl, hread, hplain, if_true]
+  simp
+
+/-- the complete body of a wrapper message; `dec ∘ enc = id` -/
+theorem body_wrap (c : TokCfg) (enc : Int → Bytes → Bytes) (hdec : ∀ k b, c.dec k (enc k b) = some b)
+    (h1 : ∀ b, c.crcs.ieee b < M32) (h2 : ∀ b, c.crcs.castagnoli b < M32)
+    (m : Msg) (codec : Int) (inner : List Msg) (hwf : (BItem.wrap m codec inner).WF c enc) (fuel : Nat) (x : Bytes) :
+    tokenize c (fuel + 1) (.body (encH1 (c.crcs.ieee (msgBody (wrapMsg enc c.crcs.ieee m codec inner))) (wrapMsg enc c.crcs.ieee m codec inner))
+        (h1Of (wrapMsg enc c.crcs.ieee m codec inner))) (encB1 (wrapMsg enc c.crcs.ieee m codec inner) ++ x)
+      = Tok.zv (encB1 (wrapMsg enc c.crcs.ieee m codec inner)).length (inner.map fun y => (y.offset, c.dg1 y)) :: tokenize c fuel .hdr x := by
+  obtain ⟨hmw, hc0, hc8, hin⟩ := hwf
+  obtain ⟨mw, hmwdef⟩ : ∃ mw, mw = wrapMsg enc c.crcs.ieee m codec inner := ⟨_, rfl⟩
+  rw [← hmwdef] at hmw ⊢
+  have hne := isEmpty_append_false (b := x) (a := encB1 mw) (encB1_pos mw)
+  have hl : ¬ (encB1 mw ++ x).length < (encB1 mw).length := by simp only [List.length_append]; omega
+  have hread : readMsg c.crcs.ieee (encH1 (c.crcs.ieee (msgBody mw)) mw ++ (encB1 mw ++ x).take (encB1 mw).length) = some (mw, []) := by
+    have := readMsg_encMsg c.crcs.ieee h1 mw hmw []
+    simpa [encMsg_split] using this
+  have hattr : mw.attributes = codec := by rw [hmwdef]; rfl
+  have hcm : codec % 8 = codec := by omega
+  have hnz : ¬ codec % 8 = 0 := by omega
+  have hval : ((mw.value.bind (c.dec (codec % 8))).bind (decodeSet c.crcs)).bind msgsOf = some inner := by
+    rw [hmwdef, hcm]
+    simp only [wrapMsg, Option.bind_some, hdec, encMsgs_eq_encSet]
+    rw [decodeSet_encSet c.crcs h1 h2 (inner.map Entry.msg) (by
+      intro e he
+      simp only [List.mem_map] at he
+      obtain ⟨y, hy, rfl⟩ := he
+      exact hin y hy)]
+    simp [msgsOf_map]
+  simp only [tokenize, hne, Bool.false_eq_true, if_false, h1Of, hl, hread, hattr, hnz, hval]
+  simp
+
+end KV.C02
+
+namespace KV.C02
+open KV KV.RW KV.Spec.RB
+
+theorem hdr1Size_eq (cv : Nat) (m : Msg) (h : m.magic = 0 ∨ m.magic = 1) : hdr1Size m.magic.toNat = (encH1 cv m).length := by
+  rw [encH1_length]
+  rcases h with h | h <;> simp [hdr1Size, h]
+
+/-- **bytes ↔ tokens** for everything the reference encoder can put into a message set — uncompressed and compressed
+v2 batches, v0/v1 messages and compressed wrappers, in any order — cut at any byte: tokenizing the first `n` bytes
+gives the token stream of the layout truncated at `n` bytes.  The codec is a parameter with `dec ∘ enc = id` and
+non-empty output. -/
+theorem tokenize_items (c : TokCfg) (enc : Int → Bytes → Bytes) (hdec : ∀ k b, c.dec k (enc k b) = some b)
+    (hpos : ∀ k b, 0 < (enc k b).length) (h1 : ∀ b, c.crcs.ieee b < M32) (h2 : ∀ b, c.crcs.castagnoli b < M32) :
+    ∀ (its : List BItem), (∀ it ∈ its, it.WF c enc) → ∀ (n fuel : Nat), n < fuel →
+      tokenize c fuel .hdr ((encItems c enc its).take n) = truncate (allTokens (layoutOfItems c enc its)) n := by
+  intro its
+  induction its with
+  | nil => intro _ n fuel _; simp [encItems, tokenize_nil, layoutOfItems, allTokens, truncate]
+  | cons it its ih =>
+    intro hwf n fuel hf
+    have hit := hwf it (by simp)
+    have IH := fun m fuel hm => ih (fun x hx => hwf x (by simp [hx])) m fuel hm
+    have hall : allTokens (layoutOfItems c enc (it :: its)) = tokensOf (it.item c enc) ++ allTokens (layoutOfItems c enc its) := by
+      simp [layoutOfItems, allTokens]
+    rw [hall]
+    simp only [encItems]
+    cases it with
+    | plain2 b => exact tok_plain2 c h2 b hit _ _ IH n fuel hf
+    | comp2 hdr codec recs => exact tok_comp2 c enc hdec h2 hdr codec recs hit (hpos _ _) _ _ IH n fuel hf
+    | msg m =>
+      obtain ⟨hm, hplain⟩ := hit
+      have hsz := hdr1Size_eq (c.crcs.ieee (msgBody m)) m hm.2.1
+      have hflag : (m.attributes % 8 != 0) = false := by simp [hplain]
+      have htoks : tokensOf ((BItem.msg m).item c enc) ++ allTokens (layoutOfItems c enc its)
+          = Tok.h1 m.magic.toNat m.offset (m.attributes % 8 != 0) :: Tok.kv (c.dg1 m) (encB1 m).length ::
+            allTokens (layoutOfItems c enc its) := by
+        simp only [BItem.item, tokensOf, hflag, hsz, encMsg_split, List.length_append, List.cons_append, List.nil_append,
+          List.cons.injEq, Tok.kv.injEq, true_and, and_true]
+        omega
+      rw [htoks]
+      simp only [BItem.bytes, encMsg_split, List.append_assoc]
+      exact tok_v1 c _ (h1 _) m hm _ rfl (body_msg c h1 m hm hplain) _ _ IH n fuel hf
+    | wrap m codec inner =>
+      have hit' := hit
+      obtain ⟨hm, hc0, hc8, _⟩ := hit
+      obtain ⟨mw, hmwdef⟩ : ∃ mw, mw = wrapMsg enc c.crcs.ieee m codec inner := ⟨_, rfl⟩
+      have hmm : mw.magic = m.magic ∧ mw.offset = m.offset ∧ mw.attributes = codec := by rw [hmwdef]; exact ⟨rfl, rfl, rfl⟩
+      have hsz := hdr1Size_eq (c.crcs.ieee (msgBody mw)) mw (by rw [hmwdef]; exact hm.2.1)
+      have hflag : (mw.attributes % 8 != 0) = true := by rw [hmm.2.2]; simp; omega
+      have htoks : tokensOf ((BItem.wrap m codec inner).item c enc) ++ allTokens (layoutOfItems c enc its)
+          = Tok.h1 mw.magic.toNat mw.offset (mw.attributes % 8 != 0) ::
+            Tok.zv (encB1 mw).length (inner.map fun y => (y.offset, c.dg1 y)) :: allTokens (layoutOfItems c enc its) := by
+        simp only [BItem.item, tokensOf, hflag, ← hmwdef, hmm.1.symm ▸ hsz, encMsg_split, List.length_append,
+          List.cons_append, List.nil_append, List.cons.injEq, Tok.zv.injEq, Tok.h1.injEq, hmm.1, hmm.2.1, true_and, and_true]
+        omega
+      rw [htoks]
+      simp only [BItem.bytes, ← hmwdef, encMsg_split, List.append_assoc]
+      refine tok_v1 c _ (h1 _) mw (by rw [hmwdef]; exact hm) _ rfl ?_ _ _ IH n fuel hf
+      intro fuel x
+      rw [hmwdef]
+      exact body_wrap c enc hdec h1 h2 m codec inner hit' fuel x
 
 end KV.C02
